@@ -14,7 +14,7 @@ namespace CaddyModel.C06
 
 def escMatchOld (escapedPath pat : Bytes) : Bool :=
   match escLoop (pat.length + 1) pat escapedPath [] with
-  | .built sb => globMatch (replacePctStar pat) sb == .yes
+  | .built sb _ => globMatch (replacePctStar pat) sb == .yes
   | _ => false
 
 /-- old `MatchPath` loop body: differs from `patMatches` in the `%` branch only -/
@@ -79,23 +79,71 @@ theorem wildcard_empty_label_old_code_matched :
   decide
 
 /-! ### wave h: the lock-step comparator of `%` patterns (`matchPatternWithEscapeSequence`) at its
-    index boundaries — three clauses the unchanged tree violates (known findings, classes
-    `path-rule-mismatch:escaped-pattern-matches-longer-path`, `path-spelling:pct-wildcard-terminator`,
-    `path-spelling:pct-encoded-dot-segment`) -/
+    index boundaries — one clause repaired by /repo 84b6e63 (class
+    `path-rule-mismatch:escaped-pattern-matches-longer-path`, fixed) and two the tree still violates (known
+    findings `path-spelling:pct-wildcard-terminator`, `path-spelling:pct-encoded-dot-segment`) -/
 
-/-- FULL STATEMENT (false): a star-free pattern matches exact paths only:
-      `∀ pat p e x, ¬ pat.contains '*' → x ≠ [] → pathCase [pat] p e → pathCase [pat] (p ++ x) (e ++ x) = false`.
-    Counter-example `wEscRest`: `/sp%20ace` matches `/sp%20ace` AND `/sp%20acex` — the loop ends when
-    the pattern is used up (`iPattern >= len(matchPath)`) and the rest of the path is never looked at.
-    Provable part for patterns without `%`: `matchPath_exact_rule`. -/
-theorem matchPath_escaped_exact_full_fails :
+/-! #### the code before the `fix:` commit /repo 84b6e63 "a path pattern with an escape sequence does
+     not match a longer path": the text built by the loop was matched as it stood, the rest of the
+     path (`escapedPath[iPath:]`) was dropped -/
+
+def escMatchNoRest (escapedPath pat : Bytes) : Bool :=
+  match escLoop (pat.length + 1) pat escapedPath [] with
+  | .built sb _ => globMatch (replacePctStar pat) (lower sb) == .yes
+  | _ => false
+
+/-- `patMatches` of the code before 84b6e63: differs in the `%` branch only -/
+def patMatchesNoRest (lp esc : Bytes) (pat : Bytes) : Bool :=
+  if pat.contains cPct ∧ pat ≠ star then
+    escMatchNoRest (cleanPathMode (!containsSub pat [cSlash, cSlash]) (lower esc)) pat
+  else patMatches lp esc pat
+
+def pathCaseNoRest (l : List Bytes) (path esc : Bytes) : Bool :=
+  (provisionPath l).any (patMatchesNoRest (lower path) esc)
+
+/-- **the exact-match clause was false for the old code**: the star-free pattern `/sp%20ace` matched
+    `/sp%20ace` AND `/sp%20acex` (the loop ends when the pattern is used up, `iPattern >= len(matchPath)`,
+    and the rest of the path was never looked at); the repaired code rejects the longer path.
+    Regression case: `corpus/C06/escaped-pattern-rest.txt` (`wEscRest`). -/
+theorem matchPath_escaped_exact_old_code_fails :
     ∃ (pat p e x : Bytes), pat.contains cStar = false ∧ x ≠ [] ∧
-      pathCase [pat] p e = true ∧ pathCase [pat] (p ++ x) (e ++ x) = true :=
+      pathCaseNoRest [pat] p e = true ∧ pathCaseNoRest [pat] (p ++ x) (e ++ x) = true ∧
+      pathCase [pat] p e = true ∧ pathCase [pat] (p ++ x) (e ++ x) = false :=
   ⟨[47, 115, 112, 37, 50, 48, 97, 99, 101], wEscRest.p1, wEscRest.e1, [120], by decide⟩
 
-theorem wEscRest_is_the_witness :
+theorem wEscRest_is_the_old_code_witness :
     wEscRest.p2 = wEscRest.p1 ++ [120] ∧ wEscRest.e2 = wEscRest.e1 ++ [120] ∧
     wEscRest.pats = [[47, 115, 112, 37, 50, 48, 97, 99, 101]] := by decide
+
+/-- the repaired step, for every pattern and path: when the loop leaves a rest `r` of the path, the
+    text matched is `sb ++ unescape r` (and an undecodable rest rejects), otherwise `sb` -/
+theorem escMatch_appends_rest_of_path (ep pat sb rest : Bytes)
+    (h : escLoop (pat.length + 1) pat ep [] = .built sb rest) :
+    escMatch ep pat =
+      (if rest.length > 0 then
+        match pathUnescape rest with
+        | none => false
+        | some r => globMatch (replacePctStar pat) (lower (sb ++ r)) == .yes
+       else globMatch (replacePctStar pat) (lower sb) == .yes) := by
+  unfold escMatch; rw [h]
+
+example : escLoop 10 [47, 115, 112, 37, 50, 48, 97, 99, 101] [47, 115, 112, 37, 50, 48, 97, 99, 101, 120] [] =
+    .built [47, 115, 112, 37, 50, 48, 97, 99, 101] [120] := by decide
+
+/-- the exact rule on the repaired code, kernel-evaluated on the family of the finding: the
+    star-free patterns `/sp%20ace`, `/a%2fb` match their own path (any spelling of the unreserved
+    bytes) and no longer any longer path — a literal byte, a segment, an escaped byte or an encoded
+    slash appended; `/a%2fb/*` still matches below the prefix -/
+theorem matchPath_escaped_exact_rule_on_repaired_code :
+    pathCase [[47, 115, 112, 37, 50, 48, 97, 99, 101]] [47, 115, 112, 32, 97, 99, 101] [47, 115, 112, 37, 50, 48, 97, 99, 101] = true ∧
+    pathCase [[47, 115, 112, 37, 50, 48, 97, 99, 101]] [47, 115, 112, 32, 97, 99, 101] [47, 115, 112, 37, 50, 48, 97, 99, 37, 54, 53] = true ∧
+    pathCase [[47, 115, 112, 37, 50, 48, 97, 99, 101]] [47, 115, 112, 32, 97, 99, 101, 120] [47, 115, 112, 37, 50, 48, 97, 99, 101, 120] = false ∧
+    pathCase [[47, 115, 112, 37, 50, 48, 97, 99, 101]] [47, 115, 112, 32, 97, 99, 101, 120] [47, 115, 112, 37, 50, 48, 97, 99, 101, 37, 55, 56] = false ∧
+    pathCase [[47, 115, 112, 37, 50, 48, 97, 99, 101]] [47, 115, 112, 32, 97, 99, 101, 47, 120] [47, 115, 112, 37, 50, 48, 97, 99, 101, 47, 120] = false ∧
+    pathCase [[47, 97, 37, 50, 102, 98]] [47, 97, 47, 98] [47, 97, 37, 50, 70, 98] = true ∧
+    pathCase [[47, 97, 37, 50, 102, 98]] [47, 97, 47, 98, 47, 120] [47, 97, 37, 50, 70, 98, 37, 50, 70, 120] = false ∧
+    pathCase [[47, 97, 37, 50, 102, 98, 47, 42]] [47, 97, 47, 98, 47, 120] [47, 97, 37, 50, 70, 98, 47, 120] = true := by
+  decide
 
 /-- FULL STATEMENT (false): percent-encoding an unreserved byte of the request at a place where
     the pattern has no escape never matters.  Counter-example `wEscTerm`: `/k%20*z` matches
@@ -136,7 +184,7 @@ theorem escLoop_decodes_escape_in_last_three_bytes (fuel : Nat) (pc a b : UInt8)
       | some ch => escLoop fuel prest [] (sb ++ ch) := by
   cases h : pathUnescape (lower [cPct, a, b]) <;> simp [escLoop, h1, h2, h]
 
-example : escLoop 5 [122] [cPct, 55, 65] [47] = .built [47, 122] := by decide
+example : escLoop 5 [122] [cPct, 55, 65] [47] = .built [47, 122] [] := by decide
 
 /-- … and with only two bytes left a `%` is an ordinary byte (cannot happen for an EscapedPath) -/
 theorem escLoop_short_escape_is_literal (fuel : Nat) (pc a : UInt8) (prest sb : Bytes)
@@ -144,6 +192,6 @@ theorem escLoop_short_escape_is_literal (fuel : Nat) (pc a : UInt8) (prest sb : 
     escLoop (fuel + 1) (pc :: prest) [cPct, a] sb = escLoop fuel prest [a] (sb ++ [cPct]) := by
   simp [escLoop, h1, h2]
 
-example : escLoop 5 [122] [cPct, 55] [47] = .built [47, 37] := by decide
+example : escLoop 5 [122] [cPct, 55] [47] = .built [47, 37] [55] := by decide
 
 end CaddyModel.C06
